@@ -105,6 +105,15 @@ def propagate_fft(wavefront, pixelscale, shape=None, oversample=2,
     return out
 
 
+def _whole(a, name):
+    # a * oversample with a floating point oversample (2.0, 1.5) is a number of
+    # samples: a whole number, as an integer array
+    a = np.asarray(a)
+    if not np.all(a == np.round(a)):
+        raise ValueError(f'{name} must be a whole number of samples, got {tuple(a)}')
+    return np.round(a).astype(int)
+
+
 def _int_pair(shape):
     # a shape as a pair of python-size integers (whole numbers only)
     return np.array([operator.index(n) for n in np.broadcast_to(shape, (2,))])
@@ -216,8 +225,8 @@ def propagate_dft(wavefront, pixelscale, shape=None, prop_shape=None,
     # integer type of a caller's array, e.g. uint8 (100, 100) * 3)
     shape = np.asarray(wavefront.shape) if shape is None else _int_pair(shape)
     prop_shape = np.asarray(shape) if prop_shape is None else _int_pair(prop_shape)
-    shape_out = shape * oversample
-    prop_shape_out = prop_shape * oversample
+    shape_out = _whole(shape * oversample, 'shape * oversample')
+    prop_shape_out = _whole(prop_shape * oversample, 'prop_shape * oversample')
 
     if mask is not None:
         mask = np.asarray(mask)
